@@ -1,6 +1,6 @@
 """C31 - Two-dimensional gas accounting conserves gas."""
 import os, json
-from vcheck import parse_edges, write_json
+from vcheck import parse_edges, write_json, InfraError
 
 META = {
     "property_id": "C31",
@@ -30,6 +30,11 @@ def run(ctx):
     ok, consumed, total, r = ctx.validate("evm/GasBudgetTrace", tp, ntraces=s["traces"], timeout=ctx.pick(300, 1500))
     if not ok:
         ctx.reject_trace("evm/GasBudgetTrace", tp, consumed, r)
+    # Unbounded integers: the conservation invariant is inductive (Apalache, SMT).  Model-level only;
+    # a failure to run is a note, a counter-example means the model is wrong (exit 2).
+    for init, inv, ln in ([("Init", "IndInv", 0), ("IndInit", "IndInv", 1)] + ([("IndInit", "Reservoir", 0)] if ctx.thorough else [])):
+        if ctx.apalache("evm/GasBudgetInd", init, inv, ln, timeout=ctx.pick(900, 1800)) is False:
+            raise InfraError("Apalache counter-example for %s => %s on GasBudgetInd (model error)" % (init, inv))
     # ---- second half: transaction settlement and the block gas pool
     drv2 = ctx.build("c31s")
     ctx.model_check("evm/Settlement", "evm/MCSettlement" if not ctx.thorough else "evm/MCSettlementThorough",
